@@ -465,6 +465,7 @@ OPEN_N = [(D, 'ber.decoder::ConstructedPayloadDecoderBase.valueDecoder@open-type
           (D, 'ber.decoder::ConstructedPayloadDecoderBase.indefLenValueDecoder@open-types[any-size]')]
 PROPS['C18']['contracts'] = PROPS['C18']['contracts'] + OPEN_N
 PROPS['C06']['contracts'] = PROPS['C06']['contracts'] + [c for c in WRAPPER if c not in PROPS['C06']['contracts']]
+PROPS['C08']['contracts'] = PROPS['C08']['contracts'] + [c for c in READS[2:4] + ITER if c not in PROPS['C08']['contracts']]
 for _p in list(PROPS):
     NOT_CLAIMED.pop(_p, None)
 
